@@ -130,7 +130,7 @@ def make_container(cfg, stmts, nss):
             ctx = ds.default_graph if g == T.DEFAULT else ds.get_context(T.to_rdflib(g))
             ctx.add((s, p, o))
         return ds
-    g = rdflib.Graph()
+    g = rdflib.Graph(bind_namespaces="none") if cfg.get("bare") else rdflib.Graph()
     for p, iri in nss:
         g.bind(p, rdflib.URIRef(iri), override=True, replace=True)
     for st in stmts:
